@@ -261,7 +261,7 @@ func parseNumber[D []byte | string](d D, neg, sepallowed bool) (Decimal, error) 
 				nfrac++
 			}
 		case c == '.':
-			if sawdot {
+			if sawdot || (sawdig && !cansep) {
 				return Decimal{}, parseNumberSyntaxError{}
 			}
 
@@ -343,7 +343,7 @@ func parseNumber[D []byte | string](d D, neg, sepallowed bool) (Decimal, error) 
 				}
 			}
 		case c == '.':
-			if sawdot || sawexp {
+			if sawdot || sawexp || (sawdig && !cansep) {
 				return Decimal{}, parseNumberSyntaxError{}
 			}
 
@@ -370,7 +370,7 @@ func parseNumber[D []byte | string](d D, neg, sepallowed bool) (Decimal, error) 
 			cansgn = false
 			eneg = true
 		case c == '_':
-			if !cansep {
+			if !sepallowed || !cansep {
 				return Decimal{}, parseNumberSyntaxError{}
 			}
 
@@ -390,7 +390,7 @@ func parseNumber[D []byte | string](d D, neg, sepallowed bool) (Decimal, error) 
 		}
 	}
 
-	if !caneof {
+	if !caneof || !sawdig {
 		return Decimal{}, parseNumberSyntaxError{}
 	}
 
